@@ -2018,6 +2018,9 @@ class AbelianArray(BlockBase):
         -------
         AbelianArray
         """
+        if axis < 0:
+            axis += self.ndim
+
         backend = self.backend
         # _split = ar.get_lib_fn(backend, "split")
         _reshape = ar.get_lib_fn(backend, "reshape")
